@@ -158,8 +158,21 @@ func c06Packetise(rng *rand.Rand, codecName string, units []c06unit, seq0 uint16
 
 func c06Units(rng *rand.Rand, codecName string, n int, withAudio bool, sizeClass int, idBase uint64) []c06unit {
 	var units []c06unit
-	ts := uint32(rng.Intn(1 << 20))
-	ats := uint32(rng.Intn(1 << 20))
+	// RTP timestamps start at a random 32-bit value (RFC 3550) and are modular: the sequence may lie anywhere in the
+	// range, cross 2^31 and wrap past 2^32 - differences are taken modulo 2^32
+	start := func() uint32 {
+		switch rng.Intn(5) {
+		case 0:
+			return uint32(1<<31) - uint32(rng.Intn(40000)) // crosses 0x80000000 within the sequence
+		case 1:
+			return uint32(0) - uint32(1+rng.Intn(40000)) // wraps past 2^32 within the sequence
+		case 2:
+			return rng.Uint32()
+		}
+		return uint32(rng.Intn(1 << 20))
+	}
+	ts := start()
+	ats := start()
 	id := idBase
 	pickSize := func() int {
 		switch sizeClass {
@@ -320,7 +333,7 @@ func c06PtsCheck(c *kit.Ctx, codecName string, units []c06unit, frames []codec.F
 			continue
 		}
 		u0 := units[matchIdx[*first]]
-		dr := int64(u.ts) - int64(u0.ts)
+		dr := int64(int32(u.ts - u0.ts)) // modular difference (sequences span far less than 2^31 ticks)
 		want := float64(dr) * 1e9 / float64(clock)
 		got := float64(frames[fi].Pts - frames[*first].Pts)
 		if d := got - want; d > 2 || d < -2 {
